@@ -77,4 +77,42 @@ def Holds (max : Nat) (evs : List Event) (msgs : List Msg) : Prop :=
   (∀ i, deliveredCtr msgs i = producedCtr evs i) ∧
   (∀ m ∈ msgs, sumSize m.files < max ∨ m.files.length ≤ 1)
 
+/-! ## the statement on observable traces of the collector under concurrency
+
+"Delivered exactly once and in the order produced … for every counter the sum over delivered messages equals the sum over
+the produced results", observed at the moment the stream ends: downstream Sends never overlap (the senders below are not
+thread-safe, and an overlapping Send can overtake), and when the final flush returns — StreamSearch returns, the RPC ends —
+every result that was produced has been delivered. -/
+
+structure TraceState where
+  fly : Option Nat
+  delivered : Nat
+  returned : Nat
+  deriving DecidableEq, Repr
+
+def obsStep (t : TraceState) : Obs → Option TraceState
+  | .dBegin n => if t.fly = none ∧ 0 < n then some { t with fly := some n } else none
+  | .dEnd n => if t.fly = some n then some { t with fly := none, delivered := t.delivered + n } else none
+  | .sendRet => some { t with returned := t.returned + 1 }
+  | .finalRet => if t.fly = none ∧ t.delivered = t.returned then some t else none
+
+def runObs (t : TraceState) : List Obs → Option TraceState
+  | [] => some t
+  | o :: rest => (obsStep t o).bind fun t' => runObs t' rest
+
+def checkTrace (tr : List Obs) : Bool := (runObs ⟨none, 0, 0⟩ tr).isSome
+
+/-- which clause a trace breaks first -/
+def traceFailKey : TraceState → List Obs → String
+  | _, [] => "ok"
+  | t, o :: rest =>
+    match obsStep t o with
+    | some t' => traceFailKey t' rest
+    | none =>
+      match o with
+      | .dBegin _ => "downstream-sends-overlap"
+      | .dEnd _ => "downstream-send-ends-without-begin"
+      | .finalRet => "final-flush-returns-before-everything-is-delivered"
+      | .sendRet => "ok"
+
 end ZoektModel.C25
